@@ -32,12 +32,18 @@ pub fn is_c(w: SymF) -> bool {
 }
 /// use of the concrete shadow value where the engine cannot follow symbolically
 fn conc(w: SymF) -> f64 {
-    with(|a| {
+    let (v, first) = with(|a| {
+        let mut first = false;
         if !a.is_const(w.0) {
             a.counters.concretised += 1;
+            first = a.counters.concretised == 1;
         }
-        a.val(w.0)
-    })
+        (a.val(w.0), first)
+    });
+    if first && std::env::var("SYMX_TRACE_CONC").is_ok() {
+        eprintln!("first concretisation at:\n{}", std::backtrace::Backtrace::force_capture());
+    }
+    v
 }
 
 #[track_caller]
@@ -296,6 +302,7 @@ impl Num for SymF {
     }
 }
 
+static LAST_BT: std::sync::Mutex<String> = std::sync::Mutex::new(String::new());
 impl ToPrimitive for SymF {
     fn to_i64(&self) -> Option<i64> {
         conc(*self).to_i64()
@@ -310,13 +317,20 @@ impl ToPrimitive for SymF {
         // `F::from(x)` / `F::cast(x)` with x: SymF must be the identity.  NumCast::from cannot
         // specialise on its source type, so the handle travels through this side channel; a
         // to_f64() whose result is *not* consumed by SymF::from is a concretisation and counted.
+        let tracing = std::env::var("SYMX_TRACE_CONC").is_ok();
         with(|a| {
             if a.last_to_f64.take().is_some() {
                 a.counters.concretised += 1;
+                if tracing && a.counters.concretised <= 2 {
+                    eprintln!("unconsumed to_f64() (concretisation) at:\n{}", LAST_BT.lock().unwrap());
+                }
             }
             let v = a.val(self.0);
             if !a.is_const(self.0) {
                 a.last_to_f64 = Some((self.0, v.to_bits()));
+                if tracing {
+                    *LAST_BT.lock().unwrap() = format!("{}", std::backtrace::Backtrace::force_capture());
+                }
             }
             Some(v)
         })
